@@ -15,6 +15,9 @@ def check(A):
         C.connect_rules(A, cf, 'C09')
         C.send_request_rule(A, cf, 'C09')
         C.reset_rules(A, cf, 'C09')
+        C.status_gate_rule(A, cf, 'C09')
+        C.loop_condition_rule(A, cf, 'C09')
+        C.write_loop_sentinel_rule(A, cf, 'C09')
     C.url_rule(A, 'C09')
     # what the client puts on the wire / echoes in a PONG is Packet.encode's text form for
     # every payload, the falsy ones included (rule shared with C01)
